@@ -133,41 +133,74 @@ pub fn represent(m: Metric, v: &[f32]) -> Vec<f32> {
 /// The tolerance bounds single-precision summation error: d * eps_f32 * accumulated magnitude,
 /// with a small floor.
 pub fn oracle_distance(m: Metric, q: &[f32], s: &[f32]) -> (f64, f64) {
+    let (d, t) = oracle_distance_inner(m, q, s);
+    if d.is_finite() && t.is_finite() {
+        (d, t)
+    } else {
+        (d, f64::INFINITY)
+    }
+}
+
+/// Beyond this accumulated magnitude single-precision partial sums may overflow: the property's
+/// "rounding error of single-precision summation" makes no claim there (tolerance = infinity).
+const OVERFLOW_ZONE: f64 = (f32::MAX as f64) / 8.0;
+/// Below this squared norm the products underflow in f32 (lost bits): no claim for ratios.
+const UNDERFLOW_ZONE: f64 = 1e-28;
+
+fn oracle_distance_inner(m: Metric, q: &[f32], s: &[f32]) -> (f64, f64) {
     let d = q.len();
     let eps = f32::EPSILON as f64; // 2^-23
     let n = d.max(1) as f64;
     match m {
         Metric::Euclidean => {
             let sum: f64 = q.iter().zip(s).map(|(a, b)| (*a as f64 - *b as f64).powi(2)).sum();
+            if sum > OVERFLOW_ZONE {
+                return (sum.sqrt(), f64::INFINITY);
+            }
             let dist = sum.sqrt();
-            // relative error of the sum <= (n+2) eps, sqrt halves it; add a floor.
-            let tol = dist * (n + 4.0) * eps + 1e-30;
+            // relative error of the sum <= (n+2) eps, sqrt halves it; the floor covers squares that underflow
+            let tol = dist * (n + 4.0) * eps + 1e-17;
             (dist, tol)
         }
         Metric::Manhattan => {
             let sum: f64 = q.iter().zip(s).map(|(a, b)| (*a as f64 - *b as f64).abs()).sum();
-            (sum, sum * (n + 4.0) * eps + 1e-30)
+            if sum > OVERFLOW_ZONE {
+                return (sum, f64::INFINITY);
+            }
+            (sum, sum * (n + 4.0) * eps + 1e-37)
         }
         Metric::Cosine => {
             let pq: f64 = q.iter().zip(s).map(|(a, b)| *a as f64 * *b as f64).sum();
             let abs_pq: f64 = q.iter().zip(s).map(|(a, b)| (*a as f64 * *b as f64).abs()).sum();
-            let pn: f64 = q.iter().map(|a| (*a as f64).powi(2)).sum::<f64>().sqrt();
-            let qn: f64 = s.iter().map(|a| (*a as f64).powi(2)).sum::<f64>().sqrt();
-            let pnqn = pn * qn;
-            if pnqn > f32::EPSILON as f64 * 4.0 {
+            let pn2: f64 = q.iter().map(|a| (*a as f64).powi(2)).sum::<f64>();
+            let qn2: f64 = s.iter().map(|a| (*a as f64).powi(2)).sum::<f64>();
+            if pn2 > OVERFLOW_ZONE || qn2 > OVERFLOW_ZONE || abs_pq > OVERFLOW_ZONE {
+                return (0.5, f64::INFINITY);
+            }
+            if pn2 == 0.0 || qn2 == 0.0 {
+                // a norm vanishes: 0 by definition
+                return (0.0, 1e-12);
+            }
+            if pn2 < UNDERFLOW_ZONE || qn2 < UNDERFLOW_ZONE {
+                return (0.5, f64::INFINITY);
+            }
+            let pnqn = pn2.sqrt() * qn2.sqrt();
+            if pnqn > (f32::EPSILON as f64) * 4.0 {
                 let cos = (pq / pnqn).clamp(-1.0, 1.0);
                 let tol = ((n + 8.0) * eps * (abs_pq / pnqn + 1.0)) + 1e-7;
                 ((1.0 - cos) / 2.0, tol)
             } else {
-                // vanishing norm: 0 by definition; near the threshold anything in [0,1] that the
-                // formula gives is tolerated.
-                (0.0, 1.0)
+                // product of norms around the code's vanishing threshold: either branch is tolerated
+                (0.5, f64::INFINITY)
             }
         }
         Metric::DotProduct => {
             let pq: f64 = q.iter().zip(s).map(|(a, b)| *a as f64 * *b as f64).sum();
             let abs_pq: f64 = q.iter().zip(s).map(|(a, b)| (*a as f64 * *b as f64).abs()).sum();
-            (pq, abs_pq * (n + 4.0) * eps + 1e-30)
+            if abs_pq > OVERFLOW_ZONE {
+                return (pq, f64::INFINITY);
+            }
+            (pq, abs_pq * (n + 4.0) * eps + (n + 1.0) * 1e-37)
         }
         Metric::BqEuclidean => {
             let h = q.iter().zip(s).filter(|(a, b)| a.is_sign_positive() != b.is_sign_positive()).count();
